@@ -1,0 +1,42 @@
+//go:build verif
+
+package fzf
+
+// Verification hooks (build tag verif) for the input path: Reader.feed, ChunkList
+// and the constants they use. Thin exported wrappers, no logic.
+
+import (
+	"io"
+
+	"github.com/junegunn/fzf/src/util"
+)
+
+// VerifReaderBufferSize and friends expose the unexported size constants.
+const (
+	VerifReaderBufferSize = readerBufferSize
+	VerifReaderSlabSize   = readerSlabSize
+)
+
+// VerifChunkSize exposes chunkSize.
+func VerifChunkSize() int { return chunkSize }
+
+// VerifFeed drives Reader.feed with an arbitrary io.Reader.
+func VerifFeed(src io.Reader, delimNil bool, pusher func([]byte) bool) {
+	r := NewReader(pusher, util.NewEventBox(), nil, delimNil, false)
+	r.feed(src)
+}
+
+// VerifSetItem fills an Item the way the plain item builder of core.go does.
+func VerifSetItem(item *Item, data []byte, index int32) {
+	item.text = util.ToChars(data)
+	item.text.Index = index
+}
+
+// VerifChunkCount returns chunk.count.
+func VerifChunkCount(c *Chunk) int { return c.count }
+
+// VerifChunkItem returns &chunk.items[i].
+func VerifChunkItem(c *Chunk, i int) *Item { return &c.items[i] }
+
+// VerifChunks returns cl.chunks (the live slice header, not a snapshot).
+func (cl *ChunkList) VerifChunks() []*Chunk { return cl.chunks }
